@@ -428,6 +428,7 @@ func execStates(ev *blockEvents) []string {
 // ---- the check -----------------------------------------------------------------------
 
 func TestCheck(t *testing.T) {
+	vk.UseT(t)
 	r := vk.Start("C05", "model_checking", 110*time.Second, 22*time.Minute)
 	defer vk.CleanScratch()
 	if r.Replay != "" {
